@@ -192,21 +192,22 @@ func init() {
 		CounterFloors: func(tier string) map[string]int64 {
 			s := sz(tier)
 			return map[string]int64{
-				"renders":                   int64(s.det * 10),
-				"pairs_repeat":              int64(s.det / 2),
-				"pairs_history":             int64(s.det * 2),
-				"pairs_rewrite":             int64(s.det * 2),
-				"pairs_shared_fonts":        int64(s.det / 2),
-				"pairs_concurrent":          int64((s.conc*s.rounds + s.cold*2) * s.concDocs / 2),
-				"pairs_cross_process":       int64(s.det * 2),
-				"concurrent_rounds":         int64(s.conc*s.rounds + s.cold*2),
+				"renders":             int64(s.det * 10),
+				"pairs_repeat":        int64(s.det / 2),
+				"pairs_history":       int64(s.det * 2),
+				"pairs_rewrite":       int64(s.det * 2),
+				"pairs_shared_fonts":  int64(s.det / 2),
+				"pairs_concurrent":    int64((s.conc*s.rounds/2 + s.cold*2*9/10) * s.concDocs * 3 / 4),
+				"pairs_cross_process": int64(s.det * 2),
+				// conc cases may run fewer rounds (concLineBudget) and a heavy one may be inconclusive
+				"concurrent_rounds":         int64(s.conc*s.rounds/2 + s.cold*2*9/10),
 				"docs_multi_page":           int64(s.det),
 				"docs_many_anchors_on_page": int64(s.det / 2),
 				"docs_broken_out_of_flow":   int64(s.det / 10),
 				"docs_gotext":               int64(s.det / 4),
 				"docs_custom_ua":            int64(s.det / 4),
-				"race_detector_on":          int64(2*s.det + s.conc + s.cold),
-				"cold_start_cases":          int64(s.cold),
+				"race_detector_on":          int64((2*s.det + s.conc + s.cold) * 95 / 100),
+				"cold_start_cases":          int64(s.cold * 9 / 10),
 				"cold_start_hyphenating":    int64(s.cold / 2),
 			}
 		},
@@ -617,8 +618,8 @@ func (c *checker) finish(first []*outcome, primary bool) {
 	c.res.Nontrivial = primary && text && multi
 }
 
-// concLineBudget: see conc (about 12 rounds of 8 documents of 600 backend calls each).
-const concLineBudget = 60000
+// concLineBudget: see conc (about 12 rounds of 8 documents of 800 backend calls each).
+const concLineBudget = 80000
 
 func (c *checker) conc() {
 	in := c.in
